@@ -401,8 +401,10 @@ def finish(ctx, level="model_checking", rule="", exhaustive=False, checker_cmd=N
         ],
         "wall_s": round(wall, 2), "violations": violations,
     }
-    os.makedirs(os.path.join(VERIF, "evidence"), exist_ok=True)
-    with open(os.path.join(VERIF, "evidence", ctx.prop + ".json"), "w") as fh:
+    # (bin/seedtest and friends redirect the evidence of runs against a deliberately broken tree to a scratch directory)
+    evdir = os.environ.get("VERIF_EVIDENCE_DIR") or os.path.join(VERIF, "evidence")
+    os.makedirs(evdir, exist_ok=True)
+    with open(os.path.join(evdir, ctx.prop + ".json"), "w") as fh:
         json.dump(ev, fh, indent=1)
     log(f"[done] {ctx.prop} {ctx.tier}: events={ctx.events} programs={ctx.programs} violations={violations} wall={wall:.1f}s")
     ctx.cleanup()
